@@ -257,7 +257,8 @@ impl World {
         }
         true
     }
-    /// Despawn `e` and all of its descendants (iterative marking: no recursion, CBMC-friendly).
+    /// Despawn `e` and all of its descendants (iterative marking: no recursion).
+    #[cfg(not(kani))]
     pub(crate) fn despawn_recursive(&mut self, e: Entity) {
         if !self.entities.contains(e) { return; }
         let n = self.entities.slots().len();
@@ -277,10 +278,27 @@ impl World {
             if !changed { break; }
             pass += 1;
         }
-        // children first (reverse index order is not required by the contract; descendants simply all go)
         let mut k = 0;
         while k < n {
             if doomed[k] && k != e.index as usize { let g = self.entities.slots()[k].generation; self.despawn(Entity { index: k as u32, generation: g }); }
+            k += 1;
+        }
+        self.despawn(e);
+    }
+    /// Under Kani: hierarchies of depth <= 1 only (one loop, CBMC cost); a grandchild is a harness bound ("capacity exceeded").
+    #[cfg(kani)]
+    pub(crate) fn despawn_recursive(&mut self, e: Entity) {
+        if !self.entities.contains(e) { return; }
+        let n = self.entities.slots().len();
+        let mut k = 0;
+        while k < n {
+            let sl = self.entities.slots()[k];
+            if sl.alive && sl.parent == Some(e) {
+                let child = Entity { index: k as u32, generation: sl.generation };
+                let mut j = 0;
+                while j < n { let g = self.entities.slots()[j]; if g.alive && g.parent == Some(child) { panic!("stub hierarchy capacity exceeded (depth > 1 under Kani)"); } j += 1; }
+                self.despawn(child);
+            }
             k += 1;
         }
         self.despawn(e);
